@@ -54,6 +54,39 @@ theorem stop_facts (s : RS) (hs : s.stopped = false) :
   simp only [hs, Bool.false_eq_true, if_false]
   exact ⟨by rw [cancel_stopped], by rw [cancel_loops], by first | rfl | trivial⟩
 
+theorem cancel_started (s : RS) : (cancelHandle s).started = s.started := by
+  unfold cancelHandle; cases s.handle <;> rfl
+
+theorem cancel_pending (s : RS) : (cancelHandle s).pending = s.pending := by
+  unfold cancelHandle; cases s.handle <;> rfl
+
+theorem playStep_ghost (s : RS) (idx : Nat) (evs : List Ev) (pa : Bool) :
+    (playStep s idx evs pa).1.started = s.started ∧ (playStep s idx evs pa).1.pending = s.pending := by
+  unfold playStep
+  refine ⟨?_, ?_⟩ <;> (dsimp only; try (split <;> rfl))
+
+theorem stop_ghost (s : RS) : (stop s).1.started = s.started ∧ (stop s).1.pending = s.pending := by
+  unfold stop
+  split
+  · exact ⟨rfl, rfl⟩
+  · exact ⟨by rw [cancel_started], by rw [cancel_pending]⟩
+
+/-- `_run_next_step` does not touch the start bookkeeping -/
+theorem runNext_ghost (s : RS) (post : List Ev) (pa : Bool) :
+    (runNext s post pa).1.started = s.started ∧ (runNext s post pa).1.pending = s.pending := by
+  unfold runNext
+  split
+  · exact ⟨rfl, rfl⟩
+  · simp only
+    generalize (if s.nextIdx < 0 then s.nextIdx % (s.durs.length : Int) else s.nextIdx) = idx0
+    by_cases hw : idx0 ≥ (s.durs.length : Int)
+    · rw [if_pos hw]
+      split
+      · exact playStep_ghost _ _ _ _
+      · exact playStep_ghost { s with loops := some _ } _ _ _
+      · exact stop_ghost s
+    · rw [if_neg hw]; exact playStep_ghost _ _ _ _
+
 /-- what one `_run_next_step` of a running show emits: either one step (with `looped` iff the show wrapped, the loop
 budget going down by one), or — loop budget exhausted — the clean-up, `stopped`, the request's own events, `completed` -/
 def RunRes (s : RS) (post : List Ev) (r : RS × List Obs) : Prop :=
@@ -96,16 +129,16 @@ def LoopAcc (n0 : Option Nat) (s : RS) (tr : List Obs) : Prop :=
 
 /-- the event ledger of one play instance -/
 def Ledger (n0 : Option Nat) (s : RS) (tr : List Obs) : Prop :=
-  cntE .played tr = 1 ∧ cntE .stopped tr = (if s.stopped then 1 else 0) ∧ cntE .completed tr ≤ cntE .stopped tr ∧
-  LoopAcc n0 s tr
+  cntE .played tr = (if s.started then 1 else 0) ∧ cntE .stopped tr = (if s.stopped then 1 else 0) ∧
+  cntE .completed tr ≤ cntE .stopped tr ∧ LoopAcc n0 s tr ∧ (s.pending = true → s.started = false)
 
 theorem ledger_same (n0 : Option Nat) (s s' : RS) (tr out : List Obs) (h : Ledger n0 s tr)
-    (hs : s'.stopped = s.stopped) (hl : s'.loops = s.loops)
+    (hs : s'.stopped = s.stopped) (hl : s'.loops = s.loops) (hg : s'.started = s.started ∧ s'.pending = s.pending)
     (h0 : cntE .played out = 0 ∧ cntE .stopped out = 0 ∧ cntE .completed out = 0 ∧ cntE .looped out = 0) :
     Ledger n0 s' (tr ++ out) := by
-  obtain ⟨a, b, c, d⟩ := h
-  refine ⟨by rw [cntE_append, a, h0.1], by rw [cntE_append, b, h0.2.1, hs]; rfl, by
-    rw [cntE_append, cntE_append, h0.2.1, h0.2.2.1]; omega, ?_⟩
+  obtain ⟨a, b, c, d, e⟩ := h
+  refine ⟨by rw [cntE_append, a, h0.1, hg.1]; rfl, by rw [cntE_append, b, h0.2.1, hs]; rfl, by
+    rw [cntE_append, cntE_append, h0.2.1, h0.2.2.1]; omega, ?_, by rw [hg.1, hg.2]; exact e⟩
   unfold LoopAcc at d ⊢
   rw [hl, cntE_append, h0.2.2.2]
   exact d
@@ -114,25 +147,34 @@ theorem ledger_same (n0 : Option Nat) (s s' : RS) (tr out : List Obs) (h : Ledge
 def IsAck (post : List Ev) : Prop :=
   post.count .played = 0 ∧ post.count .stopped = 0 ∧ post.count .completed = 0 ∧ post.count .looped = 0
 
+/-- a request's own events besides `played` -/
+def IsAck' (post : List Ev) : Prop :=
+  post.count .stopped = 0 ∧ post.count .completed = 0 ∧ post.count .looped = 0
+
 theorem ledger_runRes (n0 : Option Nat) (s : RS) (post : List Ev) (r : RS × List Obs) (tr : List Obs)
-    (h : Ledger n0 s tr) (hs : s.stopped = false) (hp : IsAck post) (hr : RunRes s post r) :
+    (ha : cntE .played tr + post.count .played = (if s.started then 1 else 0))
+    (b : cntE .stopped tr = (if s.stopped then 1 else 0)) (c : cntE .completed tr ≤ cntE .stopped tr)
+    (d : LoopAcc n0 s tr) (e : s.pending = true → s.started = false)
+    (hs : s.stopped = false) (hp : IsAck' post) (hr : RunRes s post r)
+    (hg : r.1.started = s.started ∧ r.1.pending = s.pending) :
     Ledger n0 r.1 (tr ++ r.2) := by
-  obtain ⟨a, b, c, d⟩ := h
+  have e' : r.1.pending = true → r.1.started = false := by rw [hg.1, hg.2]; exact e
+  rw [← hg.1] at ha
   rw [hs] at b
   simp only [Bool.false_eq_true, if_false] at b
   have hc0 : cntE .completed tr = 0 := by omega
-  obtain ⟨hpl, hst, hco, hlo⟩ := hp
+  obtain ⟨hst, hco, hlo⟩ := hp
   rcases hr with ⟨hrs, i, t, lp, hout, hlp⟩ | ⟨hrs, hrl, hl0, hout⟩
   · have hev : ∀ e, cntE e r.2 = post.count e + lp.count e := by
       intro e; rw [hout]; simp only [cntE]; rw [cntE_evs, List.count_append]
     rcases hlp with ⟨rfl, hl⟩ | ⟨rfl, hl⟩
-    · refine ⟨by rw [cntE_append, a, hev, hpl]; rfl, by rw [cntE_append, b, hev, hst, hrs]; rfl,
-        by rw [cntE_append, cntE_append, hev, hev, hco, hst, hc0, b]; simp, ?_⟩
+    · refine ⟨by rw [cntE_append, hev, ← ha]; simp, by rw [cntE_append, b, hev, hst, hrs]; rfl,
+        by rw [cntE_append, cntE_append, hev, hev, hco, hst, hc0, b]; simp, ?_, e'⟩
       unfold LoopAcc at d ⊢
       rw [hl, cntE_append, hev, hlo]
       exact d
-    · refine ⟨by rw [cntE_append, a, hev, hpl]; rfl, by rw [cntE_append, b, hev, hst, hrs]; rfl,
-        by rw [cntE_append, cntE_append, hev, hev, hco, hst, hc0, b]; simp, ?_⟩
+    · refine ⟨by rw [cntE_append, hev, ← ha]; simp, by rw [cntE_append, b, hev, hst, hrs]; rfl,
+        by rw [cntE_append, cntE_append, hev, hev, hco, hst, hc0, b]; simp, ?_, e'⟩
       unfold LoopAcc at d ⊢
       rw [cntE_append, hev, hlo]
       rcases hl with ⟨h1, h2⟩ | ⟨n, h1, h2⟩
@@ -148,96 +190,138 @@ theorem ledger_runRes (n0 : Option Nat) (s : RS) (post : List Ev) (r : RS × Lis
       rw [h1]
       by_cases he1 : e = Ev.stopped <;> by_cases he2 : e = Ev.completed <;>
         simp [cntE, he1, he2, eq_comm]
-    refine ⟨by rw [cntE_append, a, hev, hpl]; simp, by rw [cntE_append, b, hev, hst, hrs]; simp,
-      by rw [cntE_append, cntE_append, hev, hev, hco, hst, hc0, b]; simp, ?_⟩
+    refine ⟨by rw [cntE_append, hev, ← ha]; simp, by rw [cntE_append, b, hev, hst, hrs]; simp,
+      by rw [cntE_append, cntE_append, hev, hev, hco, hst, hc0, b]; simp, ?_, e'⟩
     unfold LoopAcc at d ⊢
     rw [hrl, cntE_append, hev, hlo]
     simpa using d
 
 theorem ledger_congr (n0 : Option Nat) (s s' : RS) (tr : List Obs) (hs : s'.stopped = s.stopped) (hl : s'.loops = s.loops)
+    (hg1 : s'.started = s.started) (hg2 : s'.pending = true → s.pending = true)
     (h : Ledger n0 s tr) : Ledger n0 s' tr := by
   unfold Ledger LoopAcc at *
-  rw [hs, hl]; exact h
+  rw [hs, hl, hg1]
+  exact ⟨h.1, h.2.1, h.2.2.1, h.2.2.2.1, fun hp => h.2.2.2.2 (hg2 hp)⟩
 
 theorem ledger_nil (n0 : Option Nat) (s s' : RS) (tr : List Obs) (hs : s'.stopped = s.stopped) (hl : s'.loops = s.loops)
+    (hg1 : s'.started = s.started) (hg2 : s'.pending = true → s.pending = true)
     (h : Ledger n0 s tr) : Ledger n0 s' (tr ++ []) := by
-  rw [List.append_nil]; exact ledger_congr n0 s s' tr hs hl h
+  rw [List.append_nil]; exact ledger_congr n0 s s' tr hs hl hg1 hg2 h
 
 /-- `runNext` on any state (stopped or not) keeps the ledger -/
 theorem ledger_runNext (n0 : Option Nat) (s : RS) (post : List Ev) (pa : Bool) (tr : List Obs) (hp : IsAck post)
     (h : Ledger n0 s tr) : Ledger n0 (runNext s post pa).1 (tr ++ (runNext s post pa).2) := by
   by_cases hs : s.stopped = true
-  · rw [runNext_stopped s post pa hs]; exact ledger_nil n0 s s tr rfl rfl h
-  · exact ledger_runRes n0 s post _ tr h (by simpa using hs) hp (runNext_out s post pa (by simpa using hs))
+  · rw [runNext_stopped s post pa hs]; exact ledger_nil n0 s s tr rfl rfl rfl id h
+  · obtain ⟨a, b, c, d, e⟩ := h
+    exact ledger_runRes n0 s post _ tr (by rw [hp.1]; exact a) b c d e (by simpa using hs) ⟨hp.2.1, hp.2.2.1, hp.2.2.2⟩
+      (runNext_out s post pa (by simpa using hs)) (runNext_ghost s post pa)
+
+theorem ledger_timerBody (n0 : Option Nat) (s : RS) (tr : List Obs) (h : Ledger n0 s tr) :
+    Ledger n0 (timerBody s).1 (tr ++ (timerBody s).2) := by
+  unfold timerBody
+  split
+  · exact ledger_nil n0 s _ tr rfl rfl rfl id h
+  split
+  · rename_i hns hpe
+    obtain ⟨a, b, c, d, e⟩ := h
+    have hst : s.started = false := e hpe
+    have hns' : s.stopped = false := by simpa using hns
+    exact ledger_runRes n0 { s with pending := false, started := true } [.played] _ tr
+      (by show cntE .played tr + 1 = 1; rw [a, hst]; rfl) b c d (by intro hh; exact absurd hh (by simp))
+      hns' (by unfold IsAck'; decide) (runNext_out _ _ _ hns') (runNext_ghost _ _ _)
+  · exact ledger_runNext n0 _ _ _ tr (by unfold IsAck; decide) h
+
+theorem ledger_reqBody (n0 : Option Nat) (s : RS) (ev : Ev) (back : Bool) (tr : List Obs) (hev : IsAck [ev])
+    (h : Ledger n0 s tr) : Ledger n0 (reqBody s ev back).1 (tr ++ (reqBody s ev back).2) := by
+  unfold reqBody
+  split
+  · exact ledger_nil n0 s _ tr rfl rfl rfl id h
+  split
+  · rename_i hns hpe
+    obtain ⟨a, b, c, d, e⟩ := h
+    have hst : s.started = false := e hpe
+    have hns' : s.stopped = false := by simpa using hns
+    exact ledger_runRes n0 { s with nextTime := s.now, pending := false, started := true } [.played] _ tr
+      (by show cntE .played tr + 1 = 1; rw [a, hst]; rfl) b c d (by intro hh; exact absurd hh (by simp))
+      hns' (by unfold IsAck'; decide) (runNext_out _ _ _ hns') (runNext_ghost _ _ _)
+  · exact ledger_runNext n0 _ _ _ tr hev (ledger_congr n0 s _ tr rfl rfl rfl id h)
 
 theorem step_ledger (n0 : Option Nat) (s : RS) (o : Op) (tr : List Obs) (hp : o.isPlay = false)
     (h : Ledger n0 s tr) : Ledger n0 (step s o).1 (tr ++ (step s o).2) := by
   cases o with
-  | play durs num den loops start running manual t => simp [Op.isPlay] at hp
+  | play durs num den loops start running manual sync t => simp [Op.isPlay] at hp
   | stop t =>
     simp only [step, ctl]
     split
     · by_cases hs : s.stopped = true
       · have : stop (setNow s t) = (setNow s t, []) := by unfold stop; simp [setNow, hs]
-        rw [this]; exact ledger_nil n0 s _ tr rfl rfl h
+        rw [this]; exact ledger_nil n0 s _ tr rfl rfl rfl id h
       · have hs' : (setNow s t).stopped = false := by simpa [setNow] using hs
         have f := stop_facts (setNow s t) hs'
-        obtain ⟨a, b, c, d⟩ := h
+        obtain ⟨a, b, c, d, e⟩ := h
         have hb : cntE .stopped tr = 0 := by rw [b]; simp [hs]
         have hout : ∀ e, cntE e (stop (setNow s t)).2 = if e = Ev.stopped then 1 else 0 := by
           intro e; rw [f.2.2, cntE_append]
           have h1 : cntE e (if (setNow s t).dirty = true then [Obs.clr] else []) = 0 := by split <;> simp [cntE]
           rw [h1]; by_cases he : e = Ev.stopped <;> simp [cntE, he, eq_comm]
-        refine ⟨by rw [cntE_append, a, hout]; simp, by rw [cntE_append, hb, hout]; simp [f.1],
-          by rw [cntE_append, cntE_append, hout, hout]; simp; omega, ?_⟩
+        have g := stop_ghost (setNow s t)
+        refine ⟨by
+            rw [cntE_append, a, hout]
+            show _ = (if (stop (setNow s t)).1.started = true then 1 else 0)
+            rw [g.1]; rfl, by rw [cntE_append, hb, hout]; simp [f.1],
+          by rw [cntE_append, cntE_append, hout, hout]; simp; omega, ?_, by
+            show (stop (setNow s t)).1.pending = true → (stop (setNow s t)).1.started = false
+            rw [g.1, g.2]; exact e⟩
         unfold LoopAcc at d ⊢
         dsimp only
         rw [f.2.1, cntE_append, hout]
         simpa [setNow] using d
-    · exact ledger_nil n0 s _ tr rfl rfl h
+    · exact ledger_nil n0 s _ tr rfl rfl rfl id h
   | pause t =>
     simp only [step, ctl]
     split
     · have h' : Ledger n0 (cancelHandle (setNow s t)) tr :=
-        ledger_congr n0 s _ tr (by rw [cancel_stopped]; rfl) (by rw [cancel_loops]; rfl) h
-      obtain ⟨a, b, c, d⟩ := h'
+        ledger_congr n0 s _ tr (by rw [cancel_stopped]; rfl) (by rw [cancel_loops]; rfl) (by rw [cancel_started]; rfl)
+          (by rw [cancel_pending]; exact id) h
+      obtain ⟨a, b, c, d, e⟩ := h'
       refine ⟨by rw [cntE_append, a]; simp [cntE], by rw [cntE_append, b]; simp [cntE],
-        by rw [cntE_append, cntE_append]; simp [cntE]; exact c, ?_⟩
+        by rw [cntE_append, cntE_append]; simp [cntE]; exact c, ?_, e⟩
       unfold LoopAcc at d ⊢
       rw [cntE_append]; simpa [cntE] using d
-    · exact ledger_nil n0 s _ tr rfl rfl h
+    · exact ledger_nil n0 s _ tr rfl rfl rfl id h
   | resume t =>
     simp only [step, ctl]
     split
-    · apply ledger_runNext n0 _ _ _ tr (by unfold IsAck; decide)
-      exact ledger_congr n0 s _ tr (by show (cancelHandle (setNow s t)).stopped = _; rw [cancel_stopped]; rfl)
-        (by show (cancelHandle (setNow s t)).loops = _; rw [cancel_loops]; rfl) h
-    · exact ledger_nil n0 s _ tr rfl rfl h
+    · apply ledger_reqBody n0 _ _ _ tr (by unfold IsAck; decide)
+      exact ledger_congr n0 s _ tr (by rw [cancel_stopped]; rfl) (by rw [cancel_loops]; rfl)
+        (by rw [cancel_started]; rfl) (by rw [cancel_pending]; exact id) h
+    · exact ledger_nil n0 s _ tr rfl rfl rfl id h
   | advance t =>
     simp only [step, ctl]
     split
-    · apply ledger_runNext n0 _ _ _ tr (by unfold IsAck; decide)
-      exact ledger_congr n0 s _ tr (by show (cancelHandle (setNow s t)).stopped = _; rw [cancel_stopped]; rfl)
-        (by show (cancelHandle (setNow s t)).loops = _; rw [cancel_loops]; rfl) h
-    · exact ledger_nil n0 s _ tr rfl rfl h
+    · apply ledger_reqBody n0 _ _ _ tr (by unfold IsAck; decide)
+      exact ledger_congr n0 s _ tr (by rw [cancel_stopped]; rfl) (by rw [cancel_loops]; rfl)
+        (by rw [cancel_started]; rfl) (by rw [cancel_pending]; exact id) h
+    · exact ledger_nil n0 s _ tr rfl rfl rfl id h
   | back t =>
     simp only [step, ctl]
     split
-    · apply ledger_runNext n0 _ _ _ tr (by unfold IsAck; decide)
-      exact ledger_congr n0 s _ tr (by show (cancelHandle (setNow s t)).stopped = _; rw [cancel_stopped]; rfl)
-        (by show (cancelHandle (setNow s t)).loops = _; rw [cancel_loops]; rfl) h
-    · exact ledger_nil n0 s _ tr rfl rfl h
+    · apply ledger_reqBody n0 _ _ _ tr (by unfold IsAck; decide)
+      exact ledger_congr n0 s _ tr (by rw [cancel_stopped]; rfl) (by rw [cancel_loops]; rfl)
+        (by rw [cancel_started]; rfl) (by rw [cancel_pending]; exact id) h
+    · exact ledger_nil n0 s _ tr rfl rfl rfl id h
   | speed num den t =>
     simp only [step, ctl]
     split
-    · exact ledger_nil n0 s _ tr rfl rfl h
-    · exact ledger_nil n0 s _ tr rfl rfl h
+    · exact ledger_nil n0 s _ tr rfl rfl rfl id h
+    · exact ledger_nil n0 s _ tr rfl rfl rfl id h
   | fire t =>
     simp only [step]
     split
-    · exact ledger_nil n0 s _ tr rfl rfl h
-    · apply ledger_runNext n0 _ _ _ tr (by unfold IsAck; decide)
-      exact ledger_congr n0 s _ tr rfl rfl h
+    · exact ledger_nil n0 s _ tr rfl rfl rfl id h
+    · apply ledger_timerBody
+      exact ledger_congr n0 s _ tr rfl rfl rfl id h
 
 theorem run_ledger (n0 : Option Nat) (ops : List Op) : ∀ (s : RS) (tr : List Obs), (∀ o ∈ ops, o.isPlay = false) →
     Ledger n0 s tr → Ledger n0 (run s ops).1 (tr ++ (run s ops).2) := by
@@ -250,52 +334,34 @@ theorem run_ledger (n0 : Option Nat) (ops : List Op) : ∀ (s : RS) (tr : List O
     exact ih _ _ (fun x hx => hp x (List.mem_cons_of_mem _ hx)) (step_ledger n0 s o tr (hp o List.mem_cons_self) h)
 
 /-- the first `_run_next_step` of a fresh instance opens the ledger -/
-theorem first_ledger (s0 : RS) (pa : Bool) (hs : s0.stopped = false) :
+theorem first_ledger (s0 : RS) (pa : Bool) (hs : s0.stopped = false) (hst : s0.started = true) (hpe : s0.pending = false) :
     Ledger s0.loops (runNext s0 [.played] pa).1 (runNext s0 [.played] pa).2 := by
-  have hr := runNext_out s0 [.played] pa hs
-  generalize runNext s0 [.played] pa = r at hr
-  rcases hr with ⟨hrs, i, t, lp, hout, hlp⟩ | ⟨hrs, hrl, hl0, hout⟩
-  · have hev : ∀ e, cntE e r.2 = [Ev.played].count e + lp.count e := by
-      intro e; rw [hout]; simp only [cntE]; rw [cntE_evs, List.count_append]
-    rcases hlp with ⟨rfl, hl⟩ | ⟨rfl, hl⟩
-    · refine ⟨by rw [hev]; decide, by rw [hev, hrs]; decide, by rw [hev, hev]; decide, ?_⟩
-      unfold LoopAcc
-      rw [hl, hev]
-      cases s0.loops <;> simp
-    · refine ⟨by rw [hev]; decide, by rw [hev, hrs]; decide, by rw [hev, hev]; decide, ?_⟩
-      unfold LoopAcc
-      rw [hev]
-      rcases hl with ⟨h1, h2⟩ | ⟨n, h1, h2⟩
-      · rw [h1, h2]; trivial
-      · rw [h1, h2]; simp; omega
-  · have hev : ∀ e, cntE e r.2 = (if e = Ev.stopped then 1 else 0) + ([Ev.played].count e + (if e = Ev.completed then 1 else 0)) := by
-      intro e
-      rw [hout, cntE_append, cntE_append, cntE_evs, List.count_append]
-      have h1 : cntE e (if s0.dirty = true then [Obs.clr] else []) = 0 := by split <;> simp [cntE]
-      rw [h1]
-      by_cases he1 : e = Ev.stopped <;> by_cases he2 : e = Ev.completed <;>
-        simp [cntE, he1, he2, eq_comm]
-    refine ⟨by rw [hev]; decide, by rw [hev, hrs]; decide, by rw [hev, hev]; decide, ?_⟩
-    unfold LoopAcc
-    rw [hrl, hev, hl0]
-    decide
+  have := ledger_runRes s0.loops s0 [.played] _ [] (by rw [hst]; rfl) (by rw [hs]; rfl) (Nat.le_refl _)
+    (by unfold LoopAcc; cases s0.loops <;> simp [cntE]) (by rw [hpe]; intro hh; cases hh) hs (by unfold IsAck'; decide)
+    (runNext_out s0 [.played] pa hs) (runNext_ghost s0 [.played] pa)
+  simpa using this
 
 /-- the play request on a key without a running show opens the ledger -/
-theorem play_ledger (durs : List Nat) (num den : Nat) (loops : Option Nat) (start : Nat) (running manual : Bool) (t : Nat) :
-    Ledger loops (step {} (.play durs num den loops start running manual t)).1
-      (step {} (.play durs num den loops start running manual t)).2 := by
+theorem play_ledger (durs : List Nat) (num den : Nat) (loops : Option Nat) (start : Int) (running manual : Bool)
+    (sync t : Nat) :
+    Ledger loops (step {} (.play durs num den loops start running manual sync t)).1
+      (step {} (.play durs num den loops start running manual sync t)).2 := by
   simp only [step]
   have hstop : stop (setNow ({} : RS) t) = (setNow {} t, []) := by unfold stop; simp [setNow]
   rw [hstop]
   simp only [List.nil_append]
-  exact first_ledger _ _ rfl
+  unfold startPlay
+  split
+  · exact first_ledger _ _ rfl rfl rfl
+  · refine ⟨rfl, rfl, Nat.le_refl _, ?_, fun _ => rfl⟩
+    unfold LoopAcc; cases loops <;> simp [cntE]
 
 /-- shape of the output of the step that stops a show -/
 def StopShape (out : List Obs) : Prop :=
   ∃ pre post, out = pre ++ Obs.ev .stopped :: post ∧ (∀ x ∈ pre, x = Obs.clr) ∧
-    (post = [] ∨ ∃ acks, post = acks.map Obs.ev ++ [Obs.ev .completed] ∧ IsAck acks)
+    (post = [] ∨ ∃ acks, post = acks.map Obs.ev ++ [Obs.ev .completed] ∧ IsAck' acks)
 
-theorem runRes_stop_shape (s : RS) (post : List Ev) (r : RS × List Obs) (hp : IsAck post) (hr : RunRes s post r)
+theorem runRes_stop_shape (s : RS) (post : List Ev) (r : RS × List Obs) (hp : IsAck' post) (hr : RunRes s post r)
     (h : r.1.stopped = true) : StopShape r.2 := by
   rcases hr with ⟨hrs, _⟩ | ⟨_, _, _, hout⟩
   · rw [hrs] at h; simp at h
@@ -305,11 +371,11 @@ theorem runRes_stop_shape (s : RS) (post : List Ev) (r : RS × List Obs) (hp : I
 
 theorem step_stop_shape (s : RS) (o : Op) (hp : o.isPlay = false) (hs : s.stopped = false)
     (h : (step s o).1.stopped = true) : StopShape (step s o).2 := by
-  have hrn : ∀ (s' : RS) (post : List Ev), s'.stopped = false → IsAck post →
-      (runNext s' post false).1.stopped = true → StopShape (runNext s' post false).2 :=
-    fun s' post hs' hpost hh => runRes_stop_shape s' post _ hpost (runNext_out s' post false hs') hh
+  have hrn : ∀ (s' : RS) (post : List Ev) (pa : Bool), s'.stopped = false → IsAck' post →
+      (runNext s' post pa).1.stopped = true → StopShape (runNext s' post pa).2 :=
+    fun s' post pa hs' hpost hh => runRes_stop_shape s' post _ hpost (runNext_out s' post pa hs') hh
   cases o with
-  | play durs num den loops start running manual t => simp [Op.isPlay] at hp
+  | play durs num den loops start running manual sync t => simp [Op.isPlay] at hp
   | stop t =>
     simp only [step, ctl] at h ⊢
     split
@@ -326,22 +392,40 @@ theorem step_stop_shape (s : RS) (o : Op) (hp : o.isPlay = false) (hs : s.stoppe
     simp only [step, ctl] at h ⊢
     split
     · rename_i hk; rw [if_pos hk] at h
-      exact hrn _ _ (by show (cancelHandle (setNow s t)).stopped = false; rw [cancel_stopped]; simpa [setNow] using hs)
-        (by unfold IsAck; decide) h
+      have hns : (cancelHandle (setNow s t)).stopped = false := by rw [cancel_stopped]; simpa [setNow] using hs
+      simp only [reqBody] at h ⊢
+      rw [if_neg (by rw [hns]; simp)] at h ⊢
+      split
+      · rename_i hpe; rw [if_pos hpe] at h
+        exact hrn _ _ _ hns (by unfold IsAck'; decide) h
+      · rename_i hpe; rw [if_neg hpe] at h
+        exact hrn _ _ _ hns (by unfold IsAck'; decide) h
     · rename_i hk; rw [if_neg hk] at h; simp [setNow, hs] at h
   | advance t =>
     simp only [step, ctl] at h ⊢
     split
     · rename_i hk; rw [if_pos hk] at h
-      exact hrn _ _ (by show (cancelHandle (setNow s t)).stopped = false; rw [cancel_stopped]; simpa [setNow] using hs)
-        (by unfold IsAck; decide) h
+      have hns : (cancelHandle (setNow s t)).stopped = false := by rw [cancel_stopped]; simpa [setNow] using hs
+      simp only [reqBody] at h ⊢
+      rw [if_neg (by rw [hns]; simp)] at h ⊢
+      split
+      · rename_i hpe; rw [if_pos hpe] at h
+        exact hrn _ _ _ hns (by unfold IsAck'; decide) h
+      · rename_i hpe; rw [if_neg hpe] at h
+        exact hrn _ _ _ hns (by unfold IsAck'; decide) h
     · rename_i hk; rw [if_neg hk] at h; simp [setNow, hs] at h
   | back t =>
     simp only [step, ctl] at h ⊢
     split
     · rename_i hk; rw [if_pos hk] at h
-      exact hrn _ _ (by show (cancelHandle (setNow s t)).stopped = false; rw [cancel_stopped]; simpa [setNow] using hs)
-        (by unfold IsAck; decide) h
+      have hns : (cancelHandle (setNow s t)).stopped = false := by rw [cancel_stopped]; simpa [setNow] using hs
+      simp only [reqBody] at h ⊢
+      rw [if_neg (by rw [hns]; simp)] at h ⊢
+      split
+      · rename_i hpe; rw [if_pos hpe] at h
+        exact hrn _ _ _ hns (by unfold IsAck'; decide) h
+      · rename_i hpe; rw [if_neg hpe] at h
+        exact hrn _ _ _ hns (by unfold IsAck'; decide) h
     · rename_i hk; rw [if_neg hk] at h; simp [setNow, hs] at h
   | speed num den t =>
     simp only [step, ctl] at h
@@ -351,6 +435,13 @@ theorem step_stop_shape (s : RS) (o : Op) (hp : o.isPlay = false) (hs : s.stoppe
     split
     · rename_i hd; rw [hd] at h; simp [setNow, hs] at h
     · rename_i tm hd; rw [hd] at h
-      exact hrn _ _ (by simpa [setNow] using hs) (by unfold IsAck; decide) h
+      simp only [timerBody] at h ⊢
+      have hns : (setNow s t).stopped = false := by simpa [setNow] using hs
+      rw [if_neg (by rw [hns]; simp)] at h ⊢
+      split
+      · rename_i hpe; rw [if_pos hpe] at h
+        exact hrn _ _ _ hns (by unfold IsAck'; decide) h
+      · rename_i hpe; rw [if_neg hpe] at h
+        exact hrn _ _ _ hns (by unfold IsAck'; decide) h
 
 end MpfVerif.Show
